@@ -8,7 +8,7 @@ use crate::sut::guard;
 use marwood::cell::Cell;
 use marwood::number::Number;
 use marwood::vm::Vm;
-use mwv_core::numeric::{pow2, NumRepr};
+use mwv_core::numeric::NumRepr;
 use num::rational::Rational32;
 use num::ToPrimitive;
 use std::rc::Rc;
@@ -185,9 +185,4 @@ pub fn spell_call(op: &str, args: &[NumRepr]) -> String {
     }
     s.push(')');
     s
-}
-
-#[allow(dead_code)]
-pub fn two64() -> num::BigInt {
-    pow2(64)
 }
